@@ -191,7 +191,7 @@ def state_key(spec):
 
 
 def budget(tier):
-    return {"timeout": 900.0 if tier == "quick" else 3000.0, "per_path": 60.0}
+    return {"timeout": 300.0 if tier == "quick" else 3000.0, "per_path": 60.0}
 
 
 META = {
